@@ -46,7 +46,7 @@ func c17SameState(a, b *ValidatorSet) bool {
 // round-cs.Round = 1 each time) and by skipping (one call with the difference)
 // must give the same proposer and the same priorities. Start state is what
 // NewValidatorSet produces, followed by k single rotations (reachable states).
-//verif:opt unwind=8 budget_s=500
+//verif:opt unwind=8 budget_s=500 thorough.budget_s=3000 thorough.split=8
 func H_C17_path_independence() {
 	n := 2
 	if verifThorough() {
